@@ -584,13 +584,40 @@ func (s *PathState) step(in ssa.Instruction) {
 		if cf, _ := x.Fn.(*ssa.Function); cf != nil && callbackSet[cf] == x {
 			break // a callback of a helper interpreted inline: its stores appear where the helper calls it
 		}
-		for _, a := range t.Args {
+		for i, a := range t.Args {
 			if a != nil && isPointerLike(a) {
+				if cf, _ := x.Fn.(*ssa.Function); cf != nil && len(t.Args) == len(cf.FreeVars) && ClosureOnlyLoads(cf, i) {
+					continue // the closure can only read this captured variable: its value stays what the creator stored
+				}
 				// the closure value escapes: later calls may write the captured variables
 				s.clobber(a)
 			}
 		}
 	}
+}
+
+// ClosureOnlyLoads: the only thing closure fn does with its i-th captured variable is to load its value (no store, no
+// address taken of a part, not handed to a call or a nested closure, not stored or returned as a pointer).
+func ClosureOnlyLoads(fn *ssa.Function, i int) bool {
+	if fn == nil || i >= len(fn.FreeVars) || len(fn.Blocks) == 0 {
+		return false
+	}
+	refs := fn.FreeVars[i].Referrers()
+	if refs == nil {
+		return false
+	}
+	for _, r := range *refs {
+		switch x := r.(type) {
+		case *ssa.DebugRef:
+		case *ssa.UnOp:
+			if x.Op != token.MUL {
+				return false
+			}
+		default:
+			return false
+		}
+	}
+	return true
 }
 
 // closureOnlyInvoked reports whether a closure value is used only as the callee of call/go/defer.
